@@ -69,6 +69,18 @@ def gen_one(r, i, tier):
             spec = {"k": "UntypedLabel", "pairs": {"k1": {"k": "Count"}, "b": spec}}
         elif wrap == 4:
             spec = {"k": "Index", "values": [spec]}
+    # stratum: Bin configurations whose factor num/(high-low) is inexact, filled exactly on every inner
+    # edge (computed in the two usual ways): the vectorised index must be the row index, ulp for ulp
+    sweep = (i % 10 == 7)
+    if sweep:
+        num, lo_, hi_ = [(100, -3.0, 3.0), (12, 0.0, 1.2), (50, 0.0, 5.0), (7, 0.0, 0.7), (3, 1.0 / 3.0, 0.7),
+                         (10, 0.1, 1.1), (30, 0.0, 3.0)][(i // 10) % 7]
+        cnt = {"k": "Count"}
+        spec = {"k": "Bin", "num": num, "low": lo_, "high": hi_, "q": {"name": None, "id": 0, "e": ["f", 0]},
+                "value": r.choice([cnt, {"k": "Sum", "q": {"name": None, "id": 0, "e": ["f", 1]}}]),
+                "under": cnt, "over": cnt, "nan": cnt}
+        fast = False
+        dyadic = False
     # quantities read named columns: d["x"] works on a dict of arrays, a record array and a dict row
     for s_ in gen.walk(spec):
         if "q" in s_:
@@ -87,6 +99,11 @@ def gen_one(r, i, tier):
                                else gen.stream(r, spec, n, [1.0], cats=CATS))]
         rows = [[float(v) if not isinstance(v, (str, bool)) else (float(v) if isinstance(v, bool) and j < 3 else v)
                  for j, v in enumerate(d)] for d in rows]
+        if sweep:
+            w_ = (spec["high"] - spec["low"]) / spec["num"]
+            ks = r.sample(range(1, spec["num"]), min(spec["num"] - 1, 24))
+            xs = [spec["low"] + k * w_ for k in ks] + [spec["low"] + k * (spec["high"] - spec["low"]) / spec["num"] for k in ks]
+            rows = [[float(x), 0.5, 0.0, "a", False] for x in xs]
         if not dyadic:
             # sums of values of magnitude 1e16 and of order 1 depend on the order of summation
             # (numpy sums pairwise): inexact programs use well-conditioned data only
